@@ -34,6 +34,37 @@ Definition splitlines (s : str) : list str := split_from [] false s.
 (* a one-entry-per-line file as a user (or printf '%s\n') writes it *)
 Definition join_lines (ids : list str) : str := flat_map (fun s => s ++ [10]) ids.
 
+(* Windows line ends: \r\n is one boundary *)
+Definition join_crlf (ids : list str) : str := flat_map (fun s => s ++ [13; 10]) ids.
+
+(* every line but the last is terminated; a last line that is empty would not
+   be visible in such a file, so that list has no unterminated writing *)
+Definition join_sep_with (term : str) (ids : list str) : option str :=
+  match rev ids with
+  | [] => None
+  | [] :: _ => None
+  | last :: front => Some (flat_map (fun s => s ++ term) (rev front) ++ last)
+  end.
+
+(* the ways a user (editor, printf, "\n".join, a spreadsheet export on Windows)
+   writes the list [ids] into a one-entry-per-line file *)
+Inductive shape := LF | NoFinal | CRLF | CRLFNoFinal | LFBlank | CRLFBlank.
+
+Definition file_of (sh : shape) (ids : list str) : option str :=
+  match sh with
+  | LF => Some (join_lines ids)
+  | NoFinal => join_sep_with [10] ids
+  | CRLF => Some (join_crlf ids)
+  | CRLFNoFinal => join_sep_with [13; 10] ids
+  | LFBlank => Some (join_lines ids ++ [10])            (* one blank line at the end *)
+  | CRLFBlank => Some (join_crlf ids ++ [13; 10])
+  end.
+
+(* the file shows exactly the list *)
+Definition strict_shapes : list shape := [LF; NoFinal; CRLF; CRLFNoFinal].
+(* the file shows the list followed by one empty entry *)
+Definition blank_shapes : list shape := [LFBlank; CRLFBlank].
+
 (* what the entry point receives: None = no restriction *)
 Definition from_opts (opts : list str) : option (list str) :=
   match opts with [] => None | _ => Some opts end.
